@@ -83,6 +83,7 @@ func (t *Tape) Choose(n int) int {
 			}
 		} else {
 			t.Rec = append(t.Rec, 0)
+			t.pos = len(t.Rec)
 		}
 		return 0
 	}
@@ -96,6 +97,7 @@ func (t *Tape) Choose(n int) int {
 	}
 	v := t.rng.Intn(n)
 	t.Rec = append(t.Rec, uint32(v))
+	t.pos = len(t.Rec)
 	return v
 }
 
@@ -213,9 +215,13 @@ func NewSim(t *testing.T, plan *Plan) *Sim {
 		FaultWeight: 1, OkWeight: 6,
 		KeepLog: true,
 	}
-	s.Tape = NewTape(NewRng(plan.Seed^0xA5A5A5A5DEADBEEF), plan.Tape, plan.Replay)
+	s.Tape = NewTape(NewRng(plan.Seed^0xA5A5A5A5DEADBEEF^(uint64(plan.Incarnation)*0x9E3779B1)), plan.Tape, plan.Replay)
 	if plan.Replay {
 		s.Tape.pos = plan.TapePos
+	} else if plan.Incarnation > 0 {
+		// a later incarnation of a generated run: keep the choices made so far, go on generating
+		s.Tape.Rec = append([]uint32(nil), plan.Tape[:min(plan.TapePos, len(plan.Tape))]...)
+		s.Tape.pos = len(s.Tape.Rec)
 	}
 	s.phase.Store("init")
 	return s
@@ -338,7 +344,12 @@ func (s *Sim) ReleaseActions(faultsFor func(c *Call) []string) []Action {
 
 func (s *Sim) Now() time.Duration { return time.Since(s.Start) }
 
+var traceLog = os.Getenv("VERIF_TRACE") != ""
+
 func (s *Sim) logf(format string, a ...any) {
+	if traceLog {
+		fmt.Fprintf(os.Stderr, format+"\n", a...)
+	}
 	if s.KeepLog {
 		s.Log = append(s.Log, fmt.Sprintf(format, a...))
 	}
